@@ -37,7 +37,7 @@ def handleIns (st : St) (op : String) (j : Json) : Option (D (St × Json)) :=
       let trivial := fitsTriviallyO S d p p ⟨[n], 0, 0⟩ == some true
       return (st, Json.mkObj [("ok", Json.bool (insertGuard S d p n && textStableC S)),
         ("boundary", Json.bool boundary), ("inside", Json.bool (insideTextGuard S d p [n])), ("marks", Json.bool marks),
-        ("trivial", Json.bool trivial)])
+        ("trivial", Json.bool trivial), ("stripped", eNode (strippedAt S d p n))])
     -- `dropPoint_drop_applies_closed`: closed slice, answered by the first pass, `dropGuard`, `TextStable`
     | "drop" =>
       let sl ← slice (← field j "slice")
